@@ -68,6 +68,16 @@ pub fn exec(store: &mut HashMap<String, MarkerTree>, cmd: &str) -> String {
             }
             format!("ok {live}")
         }
+        // `pairs n salt`: n x n distinct conjunctions (n^2 memoised `and` steps): the size at which a capacity-based clean-up of the
+        // interner's tables would start
+        "pairs" => {
+            let n: usize = p[1].parse().unwrap();
+            let left: Vec<MarkerTree> = (0..n).map(|i| MarkerTree::from_str(&format!("extra == 'l{}i{i}'", p[2])).unwrap()).collect();
+            let right: Vec<MarkerTree> = (0..n).map(|i| MarkerTree::from_str(&format!("extra == 'r{}i{i}'", p[2])).unwrap()).collect();
+            let mut live = 0usize;
+            for l in &left { for r in &right { let mut m = l.clone(); m.and(r.clone()); if !m.is_false() { live += 1; } } }
+            format!("ok {live}")
+        }
         "obs" => {
             let m = &store[p[1]];
             let dnf = m.to_dnf();
@@ -647,6 +657,34 @@ pub fn run(out: &mut Out, tier: &str, seed: u64, prop: &str) {
                             out.nontrivial(format!("{round}.{k}"));
                         }
                     }
+                }
+            }
+            // (2b) a very long history in the MIDDLE: markers built before it and the same texts built after it are the same
+            //      markers (==, same hash, Equal), and everything observable equals what a fresh process shows
+            {
+                let texts = ["python_version >= '3.8' and os_name == 'posix' or extra == 'test'", "implementation_version < '7.3' and 'x' in platform_machine", "extra == 'a' and extra != 'b'", "sys_platform == 'linux'", "python_full_version ~= '3.9.1' or platform_release > '5'"];
+                let sizes: &[usize] = if big { &[300, 520, 1100] } else { &[520] };
+                for &n in sizes {
+                    let mut w = Worker::spawn("hist");
+                    let mut fresh = Worker::spawn("hist");
+                    for (i, t) in texts.iter().enumerate() { w.call(&format!("p a{i} {}", hex(t))); }
+                    let r = w.call(&format!("pairs {n} m{seed}"));
+                    if !r.starts_with("ok ") { out.oracle_fail("C14", "a long run of conjunctions panicked / did not finish", serde_json::json!({"pairs": n, "answer": r})); continue; }
+                    for (i, t) in texts.iter().enumerate() {
+                        w.call(&format!("p b{i} {}", hex(t)));
+                        fresh.call(&format!("p b{i} {}", hex(t)));
+                        out.evaluations += 1;
+                        let rel = w.call(&format!("rel a{i} b{i}"));
+                        let f: Vec<&str> = rel.split(' ').collect();
+                        let input = serde_json::json!({"text": t, "between": format!("{n} x {n} distinct conjunctions"), "rel": rel});
+                        if f.first() != Some(&"1") || f.get(1) != Some(&"eq") || f.get(2) != Some(&"1") {
+                            out.oracle_fail("C14", "a marker built before a long history and the same text built after it are not the same marker (== / cmp / hash)", input.clone());
+                        }
+                        if w.call(&format!("obs b{i}")) != fresh.call(&format!("obs b{i}")) || w.call(&format!("obs a{i}")) != fresh.call(&format!("obs b{i}")) {
+                            out.oracle_fail("C14", "what a marker shows after a long history differs from a fresh process", input);
+                        }
+                    }
+                    out.stat("c14.long_history_in_the_middle");
                 }
             }
             for r in 0..(if big { 6 } else { 2 }) { cross_process_order(out, "C14", &mut rng, &format!("H{seed}r{r}")); }
